@@ -258,6 +258,29 @@ func RunC19(tier string) int {
 			compare(chnC, ladC, args, "cycle-upstream-of-everything:", nil)
 		}
 	}
+	// selection that ends in an error: the bottom target does not match the host platform, so
+	// selecting anything above it has to report the mismatch (once), as quickly as on the chain
+	{
+		mkP := func(name string, chain bool) *grog.Machine {
+			ws := filepath.Join(dir, name)
+			_ = writeLadder(ws, 2, 30, chain)
+			b, _ := os.ReadFile(filepath.Join(ws, "BUILD.json"))
+			var pk map[string][]map[string]any
+			_ = json.Unmarshal(b, &pk)
+			for _, t := range pk["targets"] {
+				if t["name"] == "n0000" {
+					t["platforms"] = []string{"plan9/mips"}
+				}
+			}
+			nb, _ := json.Marshal(pk)
+			_ = os.WriteFile(filepath.Join(ws, "BUILD.json"), nb, 0644)
+			return &grog.Machine{Bin: g, Workspace: ws, Root: filepath.Join(dir, name+"-root"), Home: filepath.Join(dir, "home"), Trace: filepath.Join(dir, name+"-trace"), VctlBin: self}
+		}
+		ladP, chnP := mkP("ladder-platform", false), mkP("chain-platform", true)
+		for _, args := range [][]string{{"build", "//:n0059"}, {"build"}, {"build", "--all-platforms", "//:n0059"}, {"list", "//..."}, {"deps", "-t", "//:n0059"}} {
+			compare(chnP, ladP, args, "bottom-target-platform-mismatch:", nil)
+		}
+	}
 	run.Assume("operation counts are exact (atomic counters at the loop heads); CPU time is process rusage, not wall clock")
 	return run.Finish()
 }
